@@ -198,7 +198,35 @@ func Extract() *fx.Group {
 	}
 	v, ok = makeLen(fx.FindFunc(fin, "", "copyFileData"))
 	put("copyChunkSize", v, ok)
+	// the Joliet name codec: two bytes per rune (as found, recorded finding iso-joliet-nonbmp-name) or
+	// unicode/utf16 in both directions (repaired). The model follows this switch; the correspondence run
+	// (iso.ucs2, code points beyond the BMP included) shows whether the switch tells the truth.
+	ut := fx.Parse("filesystem/iso9660/util.go")
+	enc, dec := fx.FindFunc(ut, "", "ucs2StringToBytes"), fx.FindFunc(ut, "", "bytesToUCS2String")
+	if enc == nil || dec == nil {
+		g.Missing("jolietUtf16")
+	} else {
+		g.Bool("jolietUtf16", callsPkg(enc, "utf16", "Encode") && callsPkg(dec, "utf16", "Decode"))
+	}
 	return g
+}
+
+// callsPkg reports whether fn contains a call pkg.name(...).
+func callsPkg(fn *ast.FuncDecl, pkg, name string) bool {
+	found := false
+	ast.Inspect(fn, func(n ast.Node) bool {
+		ce, ok := n.(*ast.CallExpr)
+		if !ok {
+			return true
+		}
+		if se, ok := ce.Fun.(*ast.SelectorExpr); ok && se.Sel.Name == name {
+			if id, ok := se.X.(*ast.Ident); ok && id.Name == pkg {
+				found = true
+			}
+		}
+		return true
+	})
+	return found
 }
 
 // sumLits evaluates an expression made of integer literals, + and parentheses.
